@@ -42,6 +42,8 @@ def entries(P: dict) -> list:
         for mode in ("vod", "live"):
             out.append((f"v3:{mode}:{stream}", f"/dash/{mode}/{stream}/hand_made.mpd", []))
         out.append((f"v3:live:{stream}:n", f"/dash/live/{stream}/manifest_n.mpd", []))
+        # the manifest names a patch document: the player fetches the PatchLocation as spelled (checklist 6)
+        out.append((f"v3:live:{stream}:patch", f"/dash/live/{stream}/hand_made.mpd", [["patch", "1"]]))
         for name in ("hand_made.mpd", "manifest_vod.mpd", "enc.mpd"):
             out.append((f"legacy-v2:{stream}:{name}", f"/dash/{stream}/{name}", []))
         out.append((f"player:{stream}", f"/play/vod/{stream}/hand_made/index.html", []))
@@ -117,6 +119,7 @@ class Player:
             trace[-1]["parse_error"] = f"{type(e).__name__}: {e}"
             return trace
         urls = [m.decode() for m in re.findall(rb"<Location>([^<]+)</Location>", body)]
+        patches = [_rel(m.decode().replace("&amp;", "&")) for m in re.findall(rb"<PatchLocation[^>]*>([^<]+)</PatchLocation>", body)]
         seg_urls = []
         for rep in mpd.reps[:max_reps]:
             if rep.init:
@@ -139,8 +142,8 @@ class Player:
                         pass
                 for n in range(first, first + per_rep):
                     seg_urls.append(_rel(rep.media_url(number=n)))
-        trace[-1]["urls"] = urls + seg_urls
-        for u in seg_urls:
+        trace[-1]["urls"] = urls + patches + seg_urls
+        for u in patches[:1] + seg_urls:
             self.get(u, trace)
         return trace
 
@@ -178,8 +181,21 @@ def judge_b(trace: list, a_names: set, baseline: set | None = None) -> list:
 _BASELINE: dict = {}
 
 
-def run_history(app, entry, a_query: list, order: str = "BAB") -> dict:
-    """B0 plays the entry, A plays it with its options, B1 plays it again (order 'BAB'); 'AB': A first"""
+def sibling(entry, E: list):
+    """another entry for the last play of B: the v3 manifest of the other stream in the other mode (it adds no
+    option of its own) - what A asked for on one stream / mode must not reach B anywhere else either"""
+    label = entry[0]
+    stream = "tears" if ":bbb" in label or "legacy-v1" in label else "bbb"
+    mode = "vod" if ("live" in label) else "live"
+    for e in E:
+        if e[0] == f"v3:{mode}:{stream}":
+            return e
+    return None
+
+
+def run_history(app, entry, a_query: list, order: str = "BAB", other=None) -> dict:
+    """B0 plays the entry, A plays it with its options, B1 plays it again (order 'BAB'); 'AB': A first;
+    'S' in the order: B plays the entry `other` (see sibling)"""
     label, path, q0 = entry
     changes = []
     state = {"snap": c16_state.fast(), "hash": c16_state.shallow()}
@@ -205,6 +221,13 @@ def run_history(app, entry, a_query: list, order: str = "BAB") -> dict:
         if who == "A":
             steps.append({"client": "A", "trace": a.play(path, q0 + a_query)})
             a_played = True
+        elif who == "S":
+            if other is None:
+                continue
+            tr = b.play(other[1], other[2], per_rep=1, max_reps=2)
+            steps.append({"client": "B", "trace": tr, "entry": other[0]})
+            for f in judge_b(tr, a_names, None):
+                fails.append({**f, "play": len(steps) - 1})
         else:
             tr = b.play(path, q0)
             steps.append({"client": "B", "trace": tr})
@@ -213,4 +236,147 @@ def run_history(app, entry, a_query: list, order: str = "BAB") -> dict:
             for f in judge_b(tr, a_names, _BASELINE.get(label)):
                 fails.append({**f, "play": len(steps) - 1})
     return {"entry": label, "path": path, "query": q0, "a_query": a_query, "order": order,
-            "steps": steps, "fails": fails, "constant_changes": changes}
+            "other": list(other) if other else None, "steps": steps, "fails": fails, "constant_changes": changes}
+
+
+# ====================================================================== what the manifest hands on (channel `follow`)
+#
+# For each media type x each injection option x its companion (failures / frames): one client (one cookie jar)
+# requests the manifest with the option vector, then follows the manifest's OWN init / media URLs of that media
+# type and counts the injected answers.  Oracle (property text, nothing about how the URL is spelled): with a code
+# >= 500 and failures = K >= 0 the addressed segment is answered K times with the synthetic code, then with the
+# real segment, and again; without failures (or with a 4xx code) every time; the neighbour segment and the init
+# segment are never synthetic.  vcorrupt + frames: the addressed video segment differs from the unmodified one,
+# its neighbour does not.
+
+# manifests with $Number$ templates (a $Time$-addressed request never meets a position given as a segment number:
+# open ledger finding inject-time-addressed-media); only hand_made lists the text track
+FOLLOW_MANIFESTS = ["hand_made.mpd", "manifest_e.mpd", "manifest_h.mpd", "manifest_i.mpd"]
+FOLLOW_PARAM = {"video": "verr", "audio": "aerr", "text": "terr"}
+
+
+def follow_grid(thorough: bool = False) -> list:
+    """fixed, seed-independent"""
+    out = []
+    i = 0
+    for mode in ("vod", "live"):
+        for ctype in ("video", "audio", "text"):
+            for code in (503, 404):
+                for failures in (None, 0, 1, 2):
+                    if ctype == "text":
+                        mfts = ["hand_made.mpd"]
+                    else:
+                        mfts = FOLLOW_MANIFESTS if thorough else [FOLLOW_MANIFESTS[i % len(FOLLOW_MANIFESTS)]]
+                    for mft in mfts:
+                        out.append({"op": "err", "mode": mode, "ctype": ctype, "code": code, "failures": failures,
+                                    "manifest": mft, "stream": "bbb"})
+                    i += 1
+        out.append({"op": "corrupt", "mode": mode, "ctype": "video", "frames": 2, "manifest": "hand_made.mpd",
+                    "stream": "bbb"})
+    if thorough:
+        for mode in ("vod", "live"):
+            for ctype in ("video", "audio"):
+                for failures in (None, 1, 3):
+                    out.append({"op": "err", "mode": mode, "ctype": ctype, "code": 504, "failures": failures,
+                                "manifest": "hand_made.mpd", "stream": "tears"})
+    return out
+
+
+def _fetch(c, url):
+    with contextlib.redirect_stdout(c16_http._DEVNULL):
+        r = c.get(url)
+    body = r.get_data()
+    r.close()
+    return r.status_code, body
+
+
+def run_follow(app, case: dict) -> dict:
+    """→ {"skipped": why} | {"answers": [...], "fails": [...], "urls": [...]}"""
+    import datetime
+    path = f"/dash/{case['mode']}/{case['stream']}/{case['manifest']}"
+    plain = app.client()
+    st, body = _fetch(plain, path)
+    if st != 200:
+        return {"skipped": f"plain manifest {st}"}
+    try:
+        mpd0 = segwalk.parse_mpd("http://localhost" + path, body)
+    except Exception as e:      # noqa: BLE001
+        return {"skipped": f"manifest not parsed: {type(e).__name__}"}
+    reps0 = [r for r in mpd0.reps if r.content_type == case["ctype"] and r.media and "$Number$" in r.media]
+    if not reps0:
+        return {"skipped": "no $Number$-addressed representation of that media type"}
+    rep0 = reps0[0]
+    if mpd0.type == "dynamic":
+        now_us = int(datetime.datetime.now(tz=datetime.timezone.utc).timestamp() * 1000000)
+        win = segwalk.number_window(mpd0, rep0, now_us)
+        if len(win) < 4:
+            return {"skipped": "live window shorter than 4 segments"}
+        target = win[len(win) // 2]
+    else:
+        target = rep0.start_number + 2
+    if case["op"] == "err":
+        q = [[FOLLOW_PARAM[case["ctype"]], f"{case['code']}={target}"]]
+        if case["failures"] is not None:
+            q.append(["failures", str(case["failures"])])
+    else:
+        q = [["vcorrupt", str(target)], ["frames", str(case["frames"])]]
+    c = app.client()                                   # the one cookie jar of this history
+    murl = c16_http.build_url(path, q)
+    st, body = _fetch(c, murl)
+    if st != 200:
+        return {"skipped": f"manifest with the options answered {st}", "urls": [murl]}
+    mpd = segwalk.parse_mpd("http://localhost" + murl, body)
+    reps = [r for r in mpd.reps if r.rep_id == rep0.rep_id]
+    if not reps:
+        return {"skipped": "representation missing from the manifest with options", "urls": [murl]}
+    rep = reps[0]
+    addressed = _rel(rep.media_url(number=target))
+    neighbour = _rel(rep.media_url(number=target + 1))
+    init = _rel(rep.init_url()) if rep.init else None
+    urls, answers, fails = [murl], [], []
+
+    def ask(u, role):
+        st, b = _fetch(c, u)
+        syn = b[:10] == b"Synthetic "
+        urls.append(u)
+        answers.append([role, st, syn])
+        return st, syn, b
+
+    if case["op"] == "err":
+        code, k = case["code"], case["failures"]
+        n = 3 if (k is None or k < 0) else k + 2
+        if init:
+            st, syn, _ = ask(init, "init")
+            if syn or st >= 500:
+                fails.append({"what": f"the init segment the manifest names was answered {st}"
+                                      f"{' (synthetic)' if syn else ''}", "url": init})
+        for j in range(n):
+            st, syn, _ = ask(addressed, f"addressed#{j}")
+            if code < 500 or k is None:
+                want = True
+            elif k < 0:
+                want = False
+            else:
+                want = j % (k + 1) < k
+            if want != (syn and st == code):
+                fails.append({"what": f"request {j} for the addressed {case['ctype']} segment {target}, through the URL "
+                                      f"the manifest hands out ({case['manifest']}, {case['mode']}; asked: "
+                                      f"{q}): expected {'the synthetic ' + str(code) if want else 'the real segment'}, "
+                                      f"got status {st}{' (synthetic)' if syn else ''}", "url": addressed})
+                break
+            if j == 0:
+                st2, syn2, _ = ask(neighbour, "neighbour")
+                if syn2 or st2 >= 500:
+                    fails.append({"what": f"the neighbour segment {target + 1} was answered {st2}"
+                                          f"{' (synthetic)' if syn2 else ''}", "url": neighbour})
+    else:
+        for u, role, want_diff in ((addressed, "addressed", True), (neighbour, "neighbour", False)):
+            st, syn, b = ask(u, role)
+            bare = u.split("?")[0]
+            st0, b0 = _fetch(plain, bare)
+            if st != 200 or st0 != 200:
+                fails.append({"what": f"{role} segment: status {st} (with the manifest's URL) / {st0} (plain)", "url": u})
+            elif (b != b0) != want_diff:
+                fails.append({"what": f"vcorrupt={target}&frames={case['frames']}: the {role} video segment "
+                                      f"{'equals' if want_diff else 'differs from'} the unmodified segment", "url": u})
+    return {"target": target, "answers": answers, "fails": fails, "urls": urls}
